@@ -16,6 +16,7 @@ from yaw.correlation.paircounts import BinwisePatchwiseArray, NormalisedCounts, 
 from yaw.redshifts import HistData, RedshiftData, _redshift_histogram, resample_jackknife
 
 from checks.common import (
+    wrap,
     CORR_MODULES,
     build_counts,
     conc_binning,
@@ -66,6 +67,56 @@ class PatchSum(Harness):
         out = [Check("data", got.data, exp_data), Check("samples", got.samples, exp_samples)]
         if self.wrong == "reach":
             out.append(Check("reach", cond=False))
+        return out
+
+
+class SetThenSum(Harness):
+    """history: sampling, then filling further patch pairs, then sampling again reflects the current counts"""
+
+    functions = (PatchedCounts.set_patch_pair, PatchedCounts.zeros, BinwisePatchwiseArray.sample_patch_sum,
+                 NormalisedCounts.sample_patch_sum, CorrFunc.sample)
+    modules = CORR_MODULES
+
+    def __init__(self, B, P, auto):
+        self.B, self.P, self.auto = B, P, auto
+        self.name = "set_then_sum.B%dP%d.%s" % (B, P, "auto" if auto else "cross")
+        self.bounds = "bins=%d patches=%d; containers filled pair by pair with a sampling call after every step; symbolic contents" % (B, P)
+
+    def make_inputs(self, eng):
+        d = sym_counts("dd", self.B, self.P, self.auto)
+        d.update(sym_counts("dr", self.B, self.P, self.auto))
+        return d
+
+    def body(self, inp):
+        B, P, auto = self.B, self.P, self.auto
+        binning = conc_binning(B)
+        w1 = inp["dd_w1"]
+        w2 = w1 if auto else inp["dd_w2"]
+        pc = PatchedCounts.zeros(binning, P, auto=auto)
+        nc = NormalisedCounts(pc, PatchedSumWeights(binning, w1.copy(), w2.copy(), auto=auto))
+        dr = build_counts(inp, "dr", binning, auto)
+        cf = CorrFunc(nc, dr)
+        out = []
+        cur = np.zeros((B, P, P), dtype=object)
+        step = 0
+        for i in range(P):
+            for j in range(P):
+                pc.set_patch_pair(i, j, inp["dd_c"][:, i, j].copy())
+                cur[:, i, j] = inp["dd_c"][:, i, j]
+                step += 1
+                if step in (1, P * P // 2, P * P):
+                    got = pc.sample_patch_sum()
+                    got_n = nc.sample_patch_sum()
+                    got_cf = cf.sample()
+                    snap = {"dd_c": wrap(cur.copy()), "dd_w1": w1}
+                    if not auto:
+                        snap["dd_w2"] = w2
+                    out.append(Check("counts_after_step%d" % step, got.samples,
+                                     mat(lambda k, b: total_counts(snap["dd_c"], b, k), P, B)))
+                    out.append(Check("normalised_after_step%d" % step, got_n.data, vec(lambda b: normalised(snap, "dd", b, auto), B)))
+                    exp = mat(lambda k, b: (normalised(snap, "dd", b, auto, k) - normalised(inp, "dr", b, auto, k))
+                              / normalised(inp, "dr", b, auto, k), P, B)
+                    out.append(Check("corrfunc_after_step%d" % step, got_cf.samples, exp))
         return out
 
 
@@ -302,6 +353,10 @@ def harnesses(tier):
     if tier == "thorough":
         hs.append(CorrLoo("LS", False, 2, 4))
         hs.append(CorrLoo("DP", True, 1, 5))
+    hs.append(SetThenSum(1, 2, False))
+    hs.append(SetThenSum(1, 2, True))
+    if tier == "thorough":
+        hs.append(SetThenSum(2, 3, False))
     hs.append(JackknifeArray(3, 2))
     hs.append(JackknifeArray(4, 1, patch_rows=False))
     hs.append(HistLoo(3, 1, 2, True))
